@@ -159,7 +159,10 @@ def read_precomputed_mesh(file):
         coordinates expressed in nanometres; and ``triangles`` is  an array
         of size Mx3 and ``uint32`` data type.
     """
-    num_vertices = struct.unpack("<I", file.read(4))[0]
+    header = file.read(4)
+    if len(header) != 4:
+        raise InvalidMeshDataError("The precomputed mesh data is too short")
+    num_vertices = struct.unpack("<I", header)[0]
     # TODO handle format errors
     #
     # Use frombuffer instead of numpy.fromfile, because the latter expects a
